@@ -434,7 +434,8 @@ def run_func(case, ctx):
     lamb = float(10.0 ** rng.uniform(-4, 0))
     A0 = gen.cores(rng, n, r, 'normal')
     nswp = int(rng.integers(1, 5))
-    H = basis(X, a, b, nm)
+    H = basis(X.copy(), a, b, nm)
+    X_pristine = X.copy()
 
     def fit(Xx, yy, A_start, sweeps):
         _acc_log['Y'] = []
@@ -476,8 +477,10 @@ def run_func(case, ctx):
         'als_func end state, core 1')
     amp = 1.
     for _ in range(2):
-        An, _, _ = fit(X, y * (1 + 1e-14 * rng.choice([-1., 1.], size=m)),
-            A0, nswp)
+        # (the calibration probe gets its own copy of the points; all other
+        # fits deliberately reuse the SAME array object, as a caller would)
+        An, _, _ = fit(X_pristine.copy(), y * (1 + 1e-14 * rng.choice(
+            [-1., 1.], size=m)), A0, nswp)
         amp = max(amp, rel_dev(A, An) / 1e-14)
     tol_cmp = max(1e-7, 1e5 * EPS * amp)
     if amp > 1e6:
@@ -496,6 +499,9 @@ def run_func(case, ctx):
         dv = rel_dev(A, Ap)
         ctx.check('f-permutation', dv <= tol_cmp, f'als_func depends on the '
             f'sample order: relative deviation {dv:.3e}', lamb=lamb, m=m)
+    ctx.check('f-restart', np.array_equal(X, X_pristine), 'als_func changed '
+        'the training points it was given (seen after repeated calls on the '
+        'same array)')
     if nswp >= 2 and max(r) >= 2:
         ctx.nontrivial(['als_func', d, nm, r, m, nswp])
 
